@@ -464,7 +464,7 @@ class Outcome:
 
 
 def run_solve(problem, params, x0=None, y0=None, clock=None, lin_fail=None, lin_record=False,
-              extra_callbacks=0, solver_holder=None):
+              extra_callbacks=0, solver_holder=None, user_callback=None):
     """One monitored solve.  Returns Outcome with .result or .exc (+ .kind, .site),
     .trace, .solver, .factory, .construct_exc."""
     import pygradflow.linear_solver as LS
@@ -500,6 +500,10 @@ def run_solve(problem, params, x0=None, y0=None, clock=None, lin_fail=None, lin_
             out.construct_exc = ex
             return out
         out.solver = solver
+        if user_callback is not None:
+            from pygradflow.callbacks import CallbackType
+
+            solver.callbacks.register(CallbackType.ComputedStep, user_callback)
         if solver_holder is not None:
             solver_holder.append(solver)
         try:
